@@ -26,6 +26,7 @@ def project_sched(log):
     switching = {}       # tid -> unit that is switching away (its callback runs next on this tid)
     resumed_on = {}      # tid -> unit most recently resumed by this OS thread (for the matching fetch_sub)
     pending_dec = {}     # tid -> pool of a fetch_sub seen before the resume event it belongs to
+    last_cb = {}         # tid -> kind of the callback running on this OS thread
     known = set()        # units whose creation is in the log (others, e.g. scheduler ULTs, are not modelled)
     extra = {}           # pool -> num_blocked contributions of units that are not modelled (primary ULT ...)
     evs = log.events
@@ -60,7 +61,8 @@ def project_sched(log):
                 u, p = uid(ev["p2"]), pid(ev["p1"])
                 if u is not None and p is not None:
                     emit("push %d %d" % (p, u))
-            elif k == 21:
+            elif k == 21 or k == 22:
+                # 22 = ABTI_pool_remove by a directed switch (ABT_thread_yield_to): the caller takes the target out
                 u, p = uid(ev["p2"]), pid(ev["p1"])
                 if u is not None and p is not None:
                     emit("pop %d %d %d" % (tid, p, u))
@@ -78,6 +80,7 @@ def project_sched(log):
                 switching[tid] = u if u in known else None
             elif k in CB_KIND:
                 u = switching.get(tid)
+                last_cb[tid] = k
                 if u is not None:
                     emit("cb %d %d %s" % (tid, u, CB_KIND[k]))
             elif k == 10:
@@ -120,9 +123,9 @@ def project_sched(log):
                 p = pid(name)
                 tid = ev["tid"]
                 if op == "fadd":
-                    u = switching.get(tid)
-                    if u is None:
-                        u = uid(ev["unit"])
+                    u = uid(ev["unit"])          # user code of a unit itself (ABT_thread_yield_to credit) ...
+                    if u is None or u not in known:
+                        u = switching.get(tid)   # ... or the scheduler context finishing a unit's suspension
                     if u is not None and u in known:
                         emit("checkNb %d %d" % (p, t3_s32(ev["cur"]) - extra.get(p, 0)))
                         emit("incB %d %d" % (u, p))
@@ -130,6 +133,8 @@ def project_sched(log):
                         extra[p] = extra.get(p, 0) + 1
                 else:
                     u = resumed_on.pop(tid, None)
+                    if u is None and last_cb.get(tid) == 35 and switching.get(tid) is not None:
+                        u = switching[tid]        # ABT_thread_yield_to: the caller's own credit is returned by its callback
                     if u is None:
                         pending_dec[tid] = p      # the resume event of the unit it belongs to follows
                     elif isinstance(u, int):
@@ -155,3 +160,96 @@ def project_sched(log):
 def t3_s32(v):
     v &= 0xffffffff
     return v - (1 << 32) if v & 0x80000000 else v
+
+
+# --------------------------------------------------------------------------------------------
+# projection onto Model.Join: one joiner / target pair per join call on a named ULT
+# --------------------------------------------------------------------------------------------
+def project_join(log):
+    """Returns a list of (target name, lines) — one hand-shake per joined ULT target."""
+    o_state = log.off("ABTI_thread", "state")
+    o_req = log.off("ABTI_thread", "request")
+    o_link = log.off("ABTI_ythread", "ctx") + log.off("ABTD_ythread_context", "p_link")
+    evs = log.events
+    # unit kinds (U<i> -> ult/task) and the U -> T binding from the join call lines
+    ukind = {}
+    for ev in evs:
+        if ev["t"] == "S" and ev["txt"][0] == "unit" and len(ev["txt"]) > 2:
+            kv = dict(x.split("=") for x in ev["txt"][2:])
+            ukind[ev["txt"][1]] = kv.get("kind")
+    targets = []
+    for ev in evs:
+        if ev["t"] == "S" and ev["txt"][0] == "apiCall" and len(ev["txt"]) >= 4 and ev["txt"][1] == "join":
+            if ukind.get(ev["txt"][2]) == "ult" and uid(ev["txt"][3]) is not None:
+                targets.append(ev["txt"][3])
+    res = []
+    for tname in targets:
+        lines = ["new"]
+        junit = None
+        jtid = None
+        in_join = False
+        t_exiting = False      # the target's exit path has begun (finish / cancellation): its link loads count
+        t_tid = None
+        done = False
+        alive = False
+        for ev in evs:
+            t = ev["t"]
+            if t == "E" and ev["kind"] in (1, 4) and ev["p1"] == tname:
+                alive = True          # (re)creation of the descriptor named tname
+                continue
+            if not alive:
+                continue
+            if t == "S":
+                txt = ev["txt"]
+                if txt[0] == "apiCall" and txt[1] == "join" and len(txt) >= 4 and txt[3] == tname:
+                    junit = ev["unit"]
+                    jtid = ev["tid"]
+                    in_join = True
+                    lines.append("jCall %d" % (0 if junit == "-" else 1))
+                elif txt[0] == "apiRet" and txt[1] == "join" and len(txt) >= 4 and txt[3] == tname:
+                    in_join = False
+                    lines.append("jRet")
+                    done = True
+            elif t == "E":
+                k = ev["kind"]
+                if k == 6 and ev["p1"] == tname:
+                    if not t_exiting:
+                        lines.append("tExit")
+                    t_exiting = True
+                    t_tid = ev["tid"]
+                elif k == 10 and t_exiting and ev["tid"] == t_tid and junit is not None and ev["p1"] == junit:
+                    lines.append("tResume")
+                elif k == 3 and ev["p1"] == tname:
+                    break              # freed: the name may be reused by another unit
+            elif t == "A":
+                name, off = t3.split_loc(ev["loc"])
+                op = ev["op"]
+                jside = in_join and ev["unit"] == junit and ev["tid"] == jtid
+                if name == tname and off == o_req and op == "for" and ev["a"] == 1:
+                    if jside:
+                        lines.append("jFetchOr %d" % (ev["cur"] & 1))
+                    else:                          # the target itself, or a scheduler cancelling it
+                        if not t_exiting:
+                            t_exiting = True
+                            lines.append("tExit")
+                        t_tid = ev["tid"]
+                        lines.append("tFetchOr %d" % (ev["cur"] & 1))
+                elif name == tname and off == o_link:
+                    if op == "store" and ev["a"] != 0 and in_join:
+                        lines.append("jStoreLink")
+                    elif op == "load" and not jside:
+                        if not t_exiting:
+                            t_exiting = True
+                            lines.append("tExit")
+                        t_tid = ev["tid"]
+                        lines.append("tLoadLink %d" % (1 if ev["cur"] else 0))
+                elif name == tname and off == o_state:
+                    if op == "store" and ev["a"] == 3:
+                        lines.append("tStoreTerminated")
+                    elif op == "load" and in_join and ev["unit"] == junit:
+                        lines.append("jLoadState %d" % (1 if ev["cur"] == 3 else 0))
+                elif in_join and junit and name == junit and off == o_state and op == "store" and ev["a"] == 2:
+                    lines.append("jStoreBlocked")
+        if done:
+            res.append((tname, lines))
+    return res
